@@ -135,6 +135,7 @@ type guardedType struct {
 	muIdx   int
 	muIsPtr bool
 	muPath  []string // mutex reached through a path of fields (e.g. cond.L): the lock is the value found there
+	allOf   []string // `all pkg.Type`: every field of every object of that struct type is guarded by the owner's mutex
 	fields  map[int]bool // guarded scalar fields (by index)
 	elems   map[int]bool // fields whose backing array is guarded
 	maps    map[int]bool // fields whose map contents are guarded
@@ -202,6 +203,8 @@ func (vc *VC) guardTable() map[string]*guardedType {
 		gt.muPath = path
 		for _, l := range g.Locs {
 			switch {
+			case strings.HasPrefix(l, "all "):
+				gt.allOf = append(gt.allOf, strings.TrimSpace(l[4:]))
 			case strings.HasPrefix(l, "elems(") && strings.HasSuffix(l, ")"):
 				if i := idx(l[6 : len(l)-1]); i >= 0 {
 					gt.elems[i] = true
@@ -302,6 +305,18 @@ func (ex *Exec) owners(gt *guardedType) []string {
 		for v, val := range e.vals {
 			add(v, val)
 		}
+		// ghost parameters of the guarded type (helpers that work on nodes name the owning instance this way)
+		for _, tv := range e.ghostArgs {
+			if tv.Ty.Go == nil {
+				continue
+			}
+			if pt, ok := tv.Ty.Go.Underlying().(*types.Pointer); ok {
+				if n, _ := types.Unalias(pt.Elem()).(*types.Named); n != nil && namedKey(n) == gt.key && !seen[tv.T] {
+					seen[tv.T] = true
+					out = append(out, tv.T)
+				}
+			}
+		}
 	}
 	sort.Strings(out)
 	return out
@@ -321,6 +336,28 @@ func (ex *Exec) notePerm() {
 func (ex *Exec) permCheck(compKey, ref string, write bool) {
 	if !ex.vc.conc || ex.vc.scratch || ex.vc.discover {
 		return
+	}
+	for _, tk := range sortedGuardKeys(ex.vc.guardTable()) {
+		gt := ex.vc.guardTable()[tk]
+		for _, tn := range gt.allOf {
+			if !strings.HasPrefix(compKey, "F:"+tn+".") {
+				continue
+			}
+			// a field of an object owned by some instance of gt: one of the instances this activation can name
+			// must be locked in a sufficient mode (or the object is still local to this call)
+			var hs []string
+			for _, o := range ex.owners(gt) {
+				hs = append(hs, sOr(ex.localObj(o), ex.permNeed(ex.muOf(gt, o, ex.curState), write)))
+			}
+			ex.notePerm()
+			kind := "perm.read"
+			if write {
+				kind = "perm.write"
+				ex.noteGuardedWrite()
+			}
+			ex.vc.oblige(fmt.Sprintf("%s[%s of %s]", kind, strings.TrimPrefix(shortKey(compKey), "F:"), gt.key), "perm", ex.curPos(), ex.curReach,
+				sOr(ex.localObj(ref), sOr(hs...)), "access to a field of a "+tn+" needs the mutex of the "+gt.key+" that owns it")
+		}
 	}
 	for _, gt := range ex.vc.guardTable() {
 		for fi := range gt.fields {
@@ -573,10 +610,39 @@ func (ex *Exec) concEnterSection(mu string, pos token.Pos, rebind bool) {
 				}
 			}
 		}
+		// objects of the `all T` types owned by an instance behind this mutex may have changed arbitrarily
+		if len(gt.allOf) > 0 {
+			var anyBehind []string
+			for _, o := range owners {
+				anyBehind = append(anyBehind, sAnd(sEq(ex.muOf(gt, o, st), mu), sNot(ex.localObj(o))))
+			}
+			cond := vc.define("acq_any", "Bool", sOr(anyBehind...))
+			for _, key := range sortedKeys(vc.compKeys()) {
+				for _, tn := range gt.allOf {
+					if strings.HasPrefix(key, "F:"+tn+".") {
+						srt := vc.compSort[key]
+						cur := ex.get(st, key, srt)
+						h := vc.fresh("acq_"+key, srt)
+						vc.assume(fmt.Sprintf("(forall ((r Int)) (! (=> (or (not %s) (not (select c0_alloc (rootOf r)))) (= (select %s r) (select %s r))) :pattern ((select %s r))))", cond, h, cur, h))
+						ex.set(st, key, srt, h)
+						if f := memInv(key, srt, h, ex.get(st, "alloc", "(Array Int Bool)")); f != "" {
+							vc.assume(f)
+						}
+					}
+				}
+			}
+			// the ghost views passed as ghost parameters describe the structure as it is now: choose them afresh
+			if ex.parent == nil && len(top.ghostArgs) > 0 && rebind {
+				for name, tv := range top.ghostArgs {
+					top.ghostArgs[name] = TV{T: vc.fresh("acq_gp_"+name, vc.vtSort(tv.Ty)), Ty: tv.Ty}
+				}
+			}
+		}
 		// the type's lock invariant holds for every object behind the mutex
 		if inv := vc.w.Contracts.LockInvs[gt.key]; inv != nil {
 			for _, o := range owners {
 				ev := top.newEval(st, st)
+				top.bindParams(ev)
 				ev.pkg = gt.named.Obj().Pkg()
 				ev.vars["self"] = TV{T: o, Ty: goVT(types.NewPointer(ev.instNamed(gt.named)))}
 				behind := sAnd(sEq(ex.muOf(gt, o, st), mu), sNot(ex.localObj(o)))
@@ -661,6 +727,20 @@ func (ex *Exec) concLeaveSection(mu string, pos token.Pos) {
 			}
 			for _, o := range os {
 				ev := top.newEval(st, top.entry)
+				top.bindParams(ev)
+				if vc.spec != nil && vc.spec.Opts["release-views"] != "" {
+					for _, part := range strings.Split(vc.spec.Opts["release-views"], ";") {
+						if eq := strings.Index(part, "="); eq > 0 {
+							if e, err := parseExpr(part[eq+1:]); err == nil {
+								ev2 := top.newEval(st, top.entry)
+								top.bindParams(ev2)
+								ev.vars[strings.TrimSpace(part[:eq])] = ev2.rval(ev2.eval(e))
+							} else {
+								vc.errorf("release-views: %v", err)
+							}
+						}
+					}
+				}
 				ev.pkg = gt.named.Obj().Pkg()
 				ev.vars["self"] = TV{T: o, Ty: goVT(types.NewPointer(ev.instNamed(gt.named)))}
 				behind := sAnd(sEq(ex.muOf(gt, o, st), mu), sNot(ex.localObj(o)))
